@@ -89,8 +89,13 @@ def single_defs(func: Func) -> Dict[str, ast.AST]:
     """Locals bound exactly once by a plain `name = expr` (not parameters)."""
     params = {p.arg for p in func.all_params}
     out = {}
+    mutated = mutated_names(func.node)
     for name, binds in assignments(func.node).items():
         if name in params:
+            continue
+        if name in mutated and any(isinstance(b, ast.Assign) and isinstance(b.value, (ast.List, ast.Dict, ast.ListComp)) or
+                                   (isinstance(b, ast.Assign) and isinstance(b.value, ast.Call) and unparse(b.value.func) in ("list", "dict", "collections.deque", "deque"))
+                                   for b in binds):
             continue
         if len(binds) != 1:
             # several bindings that all assign the very same expression count as one (a block duplicated by inlining / copy-paste)
@@ -104,6 +109,57 @@ def single_defs(func: Func) -> Dict[str, ast.AST]:
             out[name] = b.value
         elif isinstance(b, ast.AnnAssign) and b.value is not None and isinstance(b.target, ast.Name):
             out[name] = b.value
+    return out
+
+
+def mutated_names(func_node) -> Set[str]:
+    """locals that are grown / updated in place (append, extend, subscript store ...): they do not hold their defining expression"""
+    mutated = set()
+    for n in own_nodes(func_node):
+        if isinstance(n, ast.Call) and isinstance(n.func, ast.Attribute) and isinstance(n.func.value, ast.Name) \
+                and n.func.attr in ("append", "extend", "insert", "appendleft", "reverse", "sort", "pop", "remove", "update", "setdefault", "clear"):
+            mutated.add(n.func.value.id)
+        elif isinstance(n, (ast.Assign, ast.AugAssign)):
+            for t in (n.targets if isinstance(n, ast.Assign) else [n.target]):
+                b = t
+                while isinstance(b, ast.Subscript):
+                    b = b.value
+                if b is not t and isinstance(b, ast.Name):
+                    mutated.add(b.id)
+    return mutated
+
+
+def element_defs(func: Func) -> Dict[str, ast.AST]:
+    """Loop variables that range over a list built by a one-generator comprehension: `L = [E for v in I]; for x in L` /
+    `for i, x in enumerate(L)` gives x -> E (E keeps the comprehension's own variable v).  Every loop binding x must range
+    over the same L, and L must be bound once."""
+    sd = single_defs(func)
+    cand: Dict[str, set] = {}
+    bad = set()
+    for n in own_nodes(func.node):
+        if not isinstance(n, (ast.For, ast.comprehension)):
+            continue
+        it, t = n.iter, n.target
+        if isinstance(it, ast.Call) and isinstance(it.func, ast.Name) and it.func.id == "enumerate" and len(it.args) == 1 \
+                and isinstance(t, ast.Tuple) and len(t.elts) == 2:
+            it, t = it.args[0], t.elts[1]
+        for x in ast.walk(n.target):
+            if isinstance(x, ast.Name) and x is not t:
+                bad.add(x.id)
+        if isinstance(t, ast.Name):
+            if isinstance(it, ast.Name) and isinstance(sd.get(it.id), ast.ListComp) and len(sd[it.id].generators) == 1 \
+                    and not sd[it.id].generators[0].ifs:
+                cand.setdefault(t.id, set()).add(it.id)
+            else:
+                bad.add(t.id)
+    binds = assignments(func.node)
+    out = {}
+    for x, ls in cand.items():
+        if x in bad or len(ls) != 1:
+            continue
+        if any(not isinstance(b, (ast.For, ast.comprehension)) for b in binds.get(x, [])):
+            continue
+        out[x] = sd[next(iter(ls))].elt
     return out
 
 
